@@ -431,9 +431,12 @@ class Broker(banana.Banana, referenceable.Referenceable):
     def freeYourReferenceTracker(self, res, tracker):
         if tracker.received_count != 0:
             return
-        if tracker.clid in self.yourReferenceByCLID:
+        # release the table entries only if they still belong to THIS
+        # tracker: the answer to an old decref may arrive after a newer
+        # tracker has been registered under the same clid
+        if self.yourReferenceByCLID.get(tracker.clid) is tracker:
             del self.yourReferenceByCLID[tracker.clid]
-        if tracker.url and tracker.url in self.yourReferenceByURL:
+        if tracker.url and self.yourReferenceByURL.get(tracker.url) is tracker:
             del self.yourReferenceByURL[tracker.url]
 
 
